@@ -43,6 +43,9 @@ func (h *TimeHeap) Clear() {
 	for h.heap.Len() > 0 {
 		_ = h.heap.Pop()
 	}
+
+	// the running total only accounts for entries that are still in the heap
+	h.total = 0
 }
 
 // AveragePerSecond calculates the average per second of all entries in the given duration.
